@@ -9,8 +9,11 @@ import (
 // MouseState is the reference's memory of the report history: whether a button press is
 // outstanding (needed only for the "motion with no button held carries no buttons" clause).
 type MouseState struct {
-	Down bool
+	Down bool    // some button is held
+	Held [3]bool // which of left / middle / right (xterm numbering 0 1 2) are held
 }
+
+func (st *MouseState) sync() { st.Down = st.Held[0] || st.Held[1] || st.Held[2] }
 
 // MouseExpect is the reference decoding of one report. ButtonsAny is set where the
 // property statement does not fix the button mask (wheel left/right, buttons 8-11).
@@ -75,7 +78,13 @@ func (st *MouseState) Decode(code, col, row int, release bool, w, h int) MouseEx
 	case release:
 		e.Buttons = tcell.ButtonNone
 		if !e.ButtonsAny {
-			st.Down = false
+			// the SGR release names the button that went up; the others stay held
+			if low < 3 {
+				st.Held[low] = false
+			} else {
+				st.Held = [3]bool{}
+			}
+			st.sync()
 		}
 	case wheel:
 		switch low {
@@ -90,20 +99,25 @@ func (st *MouseState) Decode(code, col, row int, release bool, w, h int) MouseEx
 			e.ButtonsAny = true // motion+wheel is not something xterm sends
 		}
 	case motion:
-		if low == 3 || !st.Down {
+		switch {
+		case low == 3 || !st.Down:
 			e.Buttons = tcell.ButtonNone // motion with no button held
-		} else {
+		case st.Held[low]:
 			e.Buttons = btn() // motion while a button is held keeps that button
+		default:
+			e.ButtonsAny = true // claims a button that is not the one held: not fixed
 		}
 	default:
 		e.Buttons = btn()
 		if low == 3 {
-			// X11-style release (no button)
+			// X11-style release (no button): which one is not said
 			if !e.ButtonsAny {
-				st.Down = false
+				st.Held = [3]bool{}
+				st.sync()
 			}
 		} else if !e.ButtonsAny {
-			st.Down = true
+			st.Held[low] = true
+			st.sync()
 		}
 	}
 	return e
